@@ -9,7 +9,7 @@ import (
 	"verifsim/world"
 )
 
-var internSites = []string{"intern.miss", "intern.locked", "intern.publish", "op.begin", "auto.atomic", "auto.lock", "auto.call"}
+var internSites = []string{"intern.miss", "intern.locked", "intern.publish", "op.begin", "auto.atomic", "auto.lock", "auto.call", "auto.spin"}
 var encodeSites = []string{"struct.size", "map.size", "map.append", "slice.size", "slice.encode", "json.size", "json.encode", "other"}
 
 var allDecodeSites = []string{"map.entry", "map.key", "map.value", "struct.read", "struct.append", "slice.elem", "slice.append", "time.read", "json.map", "json.array", "json.kv", "slice.varint"}
@@ -405,9 +405,13 @@ func GenC10(seed uint64, idx int) *Scenario {
 			switch k := r.Intn(12); {
 			case k < 6: // re-used target; slot bound to the type so that re-use really happens
 				op.Target = 1 + slotFor(tn, mainType)
-				if r.Intn(3) == 0 {
+				switch r.Intn(6) {
+				case 0, 1:
 					// the caller first cuts the slices of the value it re-uses (v.Items = v.Items[:0])
 					ops = append(ops, Op{Kind: "reslice", Target: op.Target, Arg: r.Intn(1000)})
+				case 2:
+					// the target holds a value the caller built itself (not one plenc decoded)
+					ops = append(ops, Op{Kind: "fill", Type: tn, Target: op.Target, VSeed: r.Next() | 1, VSize: 2 + r.Intn(16), Vocab: vocab, Pat: "raw"})
 				}
 				ops = append(ops, op)
 			case k < 8: // fresh target: must be independent of history
